@@ -86,6 +86,8 @@ pub enum RngModel {
     Period2(bool),
     /// replays a recorded byte stream, then zeros
     Replay(Vec<u8>, usize),
+    /// a generator that REPORTS its failure: `try_fill_bytes` returns an error (and leaves zeros), `fill_bytes` yields zeros
+    Fail,
 }
 impl RngModel {
     pub fn new(kind: &str, seed: u64) -> RngModel {
@@ -95,6 +97,7 @@ impl RngModel {
             "const" => RngModel::Const(0x5a),
             "ctr" => RngModel::Counter(0),
             "p2" => RngModel::Period2(false),
+            "fail" => RngModel::Fail,
             _ => panic!("unknown rng model {}", kind),
         }
     }
@@ -111,7 +114,7 @@ impl RngCore for RngModel {
     fn fill_bytes(&mut self, dest: &mut [u8]) {
         match self {
             RngModel::ChaCha(r) => r.fill_bytes(dest),
-            RngModel::Zero => dest.iter_mut().for_each(|b| *b = 0),
+            RngModel::Zero | RngModel::Fail => dest.iter_mut().for_each(|b| *b = 0),
             RngModel::Const(c) => dest.iter_mut().for_each(|b| *b = *c),
             RngModel::Counter(c) => {
                 for b in dest.iter_mut() {
@@ -135,6 +138,9 @@ impl RngCore for RngModel {
 
     fn try_fill_bytes(&mut self, dest: &mut [u8]) -> Result<(), rand_core::Error> {
         self.fill_bytes(dest);
+        if matches!(self, RngModel::Fail) {
+            return Err(rand_core::Error::from(core::num::NonZeroU32::new(rand_core::Error::CUSTOM_START + 7).unwrap()));
+        }
         Ok(())
     }
 }
